@@ -27,6 +27,10 @@ INSTRUCTOR_FILE = 'instructor.py'
 _SR = []
 
 
+def _ambient_trace(frame, event, arg):
+    return None
+
+
 def unwrap(x):
     if not _SR:
         from pedal.sandbox.result import SandboxResult
@@ -132,6 +136,10 @@ class SbxRun:
             self.sandbox.MAXIMUM_TEMPORARY_LENGTH = self.cfg['max_temp']
         MONITOR.configure(student_files=self.student_files, instructor_files=[INSTRUCTOR_FILE],
                           pedal_only=self.cfg.get('pedal_only'))
+        if self.cfg.get('ambient_trace'):
+            # a trace function that was installed before pedal was called (a debugger, a coverage run of the grader
+            # itself): "restored" then means this very function, not None
+            sys.settrace(_ambient_trace)
         MONITOR.begin(digest=self.cfg.get('digest', True), sites=self.cfg.get('sites', False))
         self.ref = RefExecutor(self.files, self.main) if self.cfg.get('ref') else None
         self.sched = None
@@ -316,6 +324,8 @@ class SbxRun:
             if self.sched is not None:
                 self.sched.deactivate()
             MONITOR.end()
+            if self.cfg.get('ambient_trace'):
+                sys.settrace(None)
         return {'obs': self.obs, 'digest': MONITOR.digest(),
                 'sched': None if self.sched is None else {
                     'events': self.sched.nevents, 'threads': len(self.sched.threads), 'joins': self.sched.joins,
